@@ -74,19 +74,20 @@ pub fn flags_for(cfg: &Cfg, rng: &mut Rng) -> Vec<String> {
     }
     // threshold options take a value: "--opt N" or "--opt=N"; the two words stay adjacent
     let mut units: Vec<Vec<String>> = f.into_iter().map(|x| vec![x]).collect();
+    // a number may be spelled with a plus sign or leading zeros (u32::from_str accepts both)
+    let spell = |rng: &mut Rng, n: u32| match rng.below(6) {
+        0 => format!("+{}", n),
+        1 => format!("0{}", n),
+        2 => format!("000{}", n),
+        _ => n.to_string(),
+    };
     if cfg.min_rep != 1 || rng.chance(1, 6) {
-        units.push(if rng.chance(1, 2) {
-            vec!["--min-repetitions".into(), cfg.min_rep.to_string()]
-        } else {
-            vec![format!("--min-repetitions={}", cfg.min_rep)]
-        });
+        let v = spell(rng, cfg.min_rep);
+        units.push(if rng.chance(1, 2) { vec!["--min-repetitions".into(), v] } else { vec![format!("--min-repetitions={}", v)] });
     }
     if cfg.min_len != 1 || rng.chance(1, 6) {
-        units.push(if rng.chance(1, 2) {
-            vec!["--min-substring-length".into(), cfg.min_len.to_string()]
-        } else {
-            vec![format!("--min-substring-length={}", cfg.min_len)]
-        });
+        let v = spell(rng, cfg.min_len);
+        units.push(if rng.chance(1, 2) { vec!["--min-substring-length".into(), v] } else { vec![format!("--min-substring-length={}", v)] });
     }
     rng.shuffle(&mut units);
     units.into_iter().flatten().collect()
@@ -95,11 +96,12 @@ pub fn flags_for(cfg: &Cfg, rng: &mut Rng) -> Vec<String> {
 /// CLI-reachable configurations only (surrogates need escape; thresholds >= 1).
 pub fn cli_cfg(rng: &mut Rng, density: u64) -> Cfg {
     let mut c = gen_cfg(rng, density);
-    if c.min_rep == u32::MAX {
-        c.min_rep = 6;
+    // the whole u32 range is legal on the command line; now and then a value beyond the small ones
+    if rng.chance(1, 8) {
+        c.min_rep = *rng.pick(&[5u32, 6, 9, 255, 256, 65_536, u32::MAX]);
     }
-    if c.min_len == u32::MAX {
-        c.min_len = 5;
+    if rng.chance(1, 8) {
+        c.min_len = *rng.pick(&[5u32, 7, 255, 256, 65_535, u32::MAX]);
     }
     c
 }
@@ -125,7 +127,7 @@ pub fn frame(lines: &[String], crlf_mode: u64, final_newline: bool, rng: &mut Rn
 pub fn argument_safe(lines: &[String]) -> bool {
     !lines.is_empty()
         && !(lines.len() == 1 && lines[0] == "-")
-        && lines.iter().all(|l| !l.is_empty() && !l.starts_with('-') && !l.contains('\0'))
+        && lines.iter().all(|l| !l.is_empty() && (!l.starts_with('-') || (l == "-" && lines.len() > 1)) && !l.contains('\0'))
 }
 
 /// Is the list representable as lines of a stream (no line feed inside a test case, no trailing CR that
@@ -152,6 +154,15 @@ pub fn corpus() -> Vec<(String, Vec<String>)> {
         ("whitespace".into(), s(&["  lead", "trail  ", "\t"])),
         ("dashes".into(), s(&["-dash", "--x", "-"])),
         ("single".into(), s(&["a"])),
+        ("flag-like".into(), s(&["--digits", "-d", "--min-repetitions=2", "-", "--", "-f"])),
+        ("hyphen-item".into(), s(&["a", "-", "b"])),
+        ("numbers".into(), s(&["007", "+1", "1e3", "0x1F", "3.14", "1_000", "٣٤", "४२"])),
+        ("equals".into(), s(&["k=v", "a==b", "=", "x=1,y=2", "--opt=value"])),
+        ("no-digits-lowercase".into(), s(&["alpha", "beta", "gamma", "alp"])),
+        ("same-length".into(), s(&["abc", "abd", "xbc", "xyz", "a1c"])),
+        ("with-empty".into(), s(&["", "a", "ab"])),
+        ("combining".into(), s(&["e\u{301}", "é", "a\u{308}b", "ab"])),
+        ("long-1100".into(), vec!["xy".repeat(550), "xy".into()]),
         ("punctuation".into(), s(&["1,5", "2,5", "a;b", "x:y", "k=v", "a|b", ",", "a, b"])),
         // only representable on the argument channel: a line feed inside a test case, a test case that ends in one
         ("newline-in-arg".into(), s(&["a\nb", "c\n", "\n"])),
@@ -378,4 +389,4 @@ pub fn random_env(rng: &mut Rng) -> Vec<(String, String)> {
 
 /// File names a user's file may have; the name must not matter. (No leading/trailing blanks: `-f -` trims the
 /// path it reads, by design. No leading hyphen: clap would take it for an option.)
-pub const FILE_NAMES: &[&str] = &["cases.txt", "with space.txt", "ünïcödé-日本.txt", "a,b;c.txt", "x=y&z.txt", "tab\tin name.txt", "quote'\"name.txt", ".hidden", "UPPER.TXT", "no-extension"];
+pub const FILE_NAMES: &[&str] = &["cases.txt", "$HOME.txt", "~tilde.txt", "%41.txt", "back\\slash.txt", "with space.txt", "ünïcödé-日本.txt", "a,b;c.txt", "x=y&z.txt", "tab\tin name.txt", "quote'\"name.txt", ".hidden", "UPPER.TXT", "no-extension"];
